@@ -1,7 +1,16 @@
-_IRB = ('exploration', 'bounded stand-in: random API histories with Inv/frame/mirror evaluated natively (proof tier being wired)',
-        'everything outside the stated bounds is unexplored', 'bounded native contract check on real entry points', 'DESIGN.md 4, 6')
-for _p in ('C01', 'C02', 'C14', 'C19'):
-    CLAIMS[_p] = _IRB
-for _p in ALL:
-    if _p not in CLAIMS:
-        NA[_p] = 'check not built yet in this session (design in DESIGN.md section 6); not claimed until its machinery is committed'
+_IRNOTE = ('assumes: stock NamespaceManager as the only state-changing listener (hook contracts stated in specs/ir.py), single thread, '
+           'asserts enabled, mathematical integers, documented argument types for position/count/data keys/OuterPin(instance, inner_pin); '
+           'trusted: pyvc VC generator + z3/cvc5; termination not proved; Instance.reference re-pointing loop pair is bounded-only until its '
+           'positional invariant lands (reported DEGRADED)')
+_IRTECH = 'contract-based deductive verification: VCs generated from the real AST of spydrnet/ir by symbolic execution (pyvc), discharged by z3/cvc5; syntactic closed-world rules; bounded native stand-in labelled as such'
+CLAIMS['C01'] = ('proof', 'Inv clauses I1/I2 (+typing) proved preserved by every public IR mutator on every exit, for all heaps and arguments; '
+                 'closed world by AST rules; history quantifier by induction over calls', _IRNOTE, _IRTECH, 'DESIGN.md 5.1, 6/C01')
+CLAIMS['C02'] = ('proof', 'Inv clauses I3/I4 (reference sets, outer-pin mirror) proved preserved by every public IR mutator on every exit', _IRNOTE, _IRTECH, 'DESIGN.md 5.1, 6/C02')
+CLAIMS['C14'] = ('proof', 'frame obligation heap\' = heap (order, reference sets, data, name-table state, policy) proved at every exceptional exit of every public IR mutator and compound constructor under the stock listener', _IRNOTE, _IRTECH, 'DESIGN.md 6/C14')
+CLAIMS['C19'] = ('proof', 'ghost announcement state: every store to a mirrored field is covered by an earlier announcement; no announcement in vain at non-veto exits; dispatcher wiring by AST rules', _IRNOTE, _IRTECH, 'DESIGN.md 6/C19')
+_B = 'bounded stand-in: contracts stated on the real entry points, evaluated natively against independent oracles over a seeded, bounded input space (never counted as proved)'
+_BN = 'everything outside the bounds recorded in evidence (coverage.bounded.bounds) is unexplored; oracles are independent re-implementations written from the property text'
+_BT = 'bounded native contract check of real entry points against independent oracles (stand-in for contracts out of the verifier\'s reach)'
+for _p, _ref in [('C03', '6/C03'), ('C04', '6/C04'), ('C05', '6/C05'), ('C06', '6/C06'), ('C07', '6/C07'), ('C08', '6/C08'), ('C09', '6/C09'), ('C10', '6/C10'),
+                 ('C11', '6/C11'), ('C12', '6/C12'), ('C13', '6/C13'), ('C15', '6/C15'), ('C16', '6/C16'), ('C17', '6/C17'), ('C18', '6/C18'), ('C20', '6/C20')]:
+    CLAIMS[_p] = ('exploration', _B, _BN, _BT, 'DESIGN.md 4, ' + _ref)
